@@ -1,8 +1,8 @@
 SPECIFICATION Spec
 CONSTANTS
   MaxLen = 3
-  MatIds = {"ident", "zero", "neg", "asym", "cross", "steep"}
-  SeedMatIds = {"ident", "neg", "asym", "cross", "steep"}
+  MatIds = {"ident", "neg", "cross"}
+  SeedMatIds = {"ident", "neg", "cross"}
   BandPairs <- BandPairsFull
   BandGaps <- BandGapsFull
   SeedGaps <- SeedGapsFull
